@@ -10,9 +10,12 @@ import z3
 CVC5 = "/usr/bin/cvc5"
 
 
-def _check_z3(assumptions, goal, timeout_ms, ematch_only=False):
+def _check_z3(assumptions, goal, timeout_ms, ematch_only=False, seed=0):
     s = z3.Solver()
     s.set("timeout", timeout_ms)
+    if seed:
+        s.set("random_seed", seed)
+        s.set("smt.random_seed", seed)
     if ematch_only:
         s.set("smt.mbqi", False)
         s.set("smt.auto_config", False)
@@ -57,6 +60,15 @@ def discharge(assumptions, goal, timeout_ms=10000, want_model=True, quick_only=F
     t0 = time.time()
     if goal is True:
         return "discharged", "encoder", 0.0, None, "trivial after simplification"
+    # quantified obligations are sensitive to the solver's search order: a few short attempts with
+    # different seeds / E-matching only come first (stability), then the full budget
+    short = min(2500, timeout_ms)
+    for seed, em in ((0, False), (7, False), (0, True), (13, False)):
+        r, s = _check_z3(assumptions, goal, short, ematch_only=em, seed=seed)
+        if r == z3.unsat:
+            return "discharged", "z3-ematch" if em else "z3", time.time() - t0, None, ""
+        if r == z3.sat and not em:
+            return "refuted", "z3", time.time() - t0, s.model() if want_model else None, ""
     r, s = _check_z3(assumptions, goal, timeout_ms)
     if r == z3.unsat:
         return "discharged", "z3", time.time() - t0, None, ""
